@@ -708,6 +708,27 @@ def reply_cases(ctx, rng):
     out.append(('long-password', 'lanplus: password is longer than 20 bytes.\n', 1, 'py:IpmiLongPasswordError'))
     out.append(('device', 'Could not open device at /dev/ipmi0 or /dev/ipmi/0 or /dev/ipmidev/0: No such file or directory\n',
                 1, 'py:RuntimeError'))
+    # failure transcripts of more than one line, as ipmitool really prints them (lib/ipmi_main.c, src/plugins/lan*/):
+    # diagnostic lines (not hex, without the word 'failed') before the decisive line
+    diag = ['Get Auth Capabilities error', 'Error issuing Get Channel Authentication Capabilities request',
+            '> RAKP 2 HMAC is invalid', 'Activate Session error:\tInvalid user name',
+            'Authentication type NONE not supported', 'No response from remote controller',
+            'Invalid user name', 'Set Session Privilege Level to ADMINISTRATOR error', 'Error: no response from RAKP 1 message',
+            'IPMI LAN send command error', 'Password: ']
+    for k in range(1, 4):
+        for _ in range(8):
+            pre = ''.join(rng.choice(diag) + rng.choice(['\n', '\r\n']) for _ in range(k))
+            s_ = rng.choice(['Error: Unable to establish IPMI v2 / RMCP+ session\n', 'Error: Unable to establish LAN session\n',
+                             'Error: Unable to establish IPMI v1.5 / RMCP session\n'])
+            out.append(('multiline-connection', pre + s_, 1, 'py:IpmiConnectionError'))
+            ch, nf, lun, cmd = rng.randrange(16), rng.randrange(64), rng.randrange(4), rng.randrange(256)
+            out.append(('multiline-timeout', pre + 'Unable to send RAW command (channel=0x%x netfn=0x%x lun=0x%x cmd=0x%x)\n' % (
+                ch, nf, lun, cmd), 1, 'IpmiTimeoutError'))
+            cc = rng.randrange(1, 256)
+            out.append(('multiline-cc', pre + 'Unable to send RAW command (channel=0x%x netfn=0x%x lun=0x%x cmd=0x%x rsp=0x%x): %s\n' % (
+                ch, nf, lun, cmd, cc, cc_text(cc)), 1, None))   # tie only: ipmitool prints the rsp= line on its own
+            out.append(('multiline-long-password', pre + 'lanplus: password is longer than 20 bytes.\n', 1,
+                        'py:IpmiLongPasswordError'))
     out.append(('rc', '', 1, 'py:RuntimeError'))
     out.append(('rc', '', 127, 'py:RuntimeError'))
     out.append(('rc', ' 01 02\n', 3, 'py:RuntimeError'))
